@@ -86,7 +86,6 @@ func init() {
 	})
 }
 
-
 func (ex *Exec) sideTabPersist(p *value, v interface{}) {
 	if ex.persistSideTab == nil {
 		ex.persistSideTab = map[*value]interface{}{}
